@@ -182,14 +182,16 @@ type RecvMsg struct {
 
 // Peer is a scripted frp client.
 type Peer struct {
-	w     *World
-	Name  string
-	Node  *simnet.Node
-	Opts  PeerOpts
-	sess  *fmux.Session
-	Ctl   net.Conn // transport-level control connection (stream)
-	rw    io.ReadWriter
-	RunID string
+	w *World
+	// LoginExtra: further fields of the Login message sent by Login
+	LoginExtra M
+	Name       string
+	Node       *simnet.Node
+	Opts       PeerOpts
+	sess       *fmux.Session
+	Ctl        net.Conn // transport-level control connection (stream)
+	rw         io.ReadWriter
+	RunID      string
 
 	mu       sync.Mutex
 	cond     *sync.Cond
@@ -371,6 +373,9 @@ func (p *Peer) Login(user, runID string, pool int) (M, error) {
 		"privilege_key": authKey(p.Opts.Token, ts), "run_id": runID, "pool_count": pool}
 	if p.Opts.RawKeys {
 		f["privilege_key"] = p.Opts.LoginKey
+	}
+	for k, v := range p.LoginExtra {
+		f[k] = v
 	}
 	return p.LoginRaw(f)
 }
